@@ -1,7 +1,7 @@
 #!/bin/bash
-# tools/seed_confirm.sh <Cxx> : confirm a sub-agent's seeded change in its scratch worktree /tmp/wt_<Cxx> and store it
+# tools/seed_confirm.sh <name> [worktree] : confirm a sub-agent's seeded change in its scratch worktree (default /tmp/wt_<name>) and store it
 # under /verif/seeded/<Cxx>/ (patch.diff, demo/, confirm.log). Prints CONFIRMED or NOT-CONFIRMED.
-id="$1"; wt=/tmp/wt_$id; out=/verif/seeded/$id
+id="$1"; wt=${2:-/tmp/wt_$id}; out=/verif/seeded/$id
 mkdir -p $out; log=$out/confirm.log; : > $log
 cd $wt || exit 2
 git diff -- src include > $out/patch.diff
